@@ -110,7 +110,7 @@ def body_model(cube, **kw):
     ORDER_assets = idx(kw['pa'], 6)
     ORDER_rows = idx(kw['pr'], 6)
     delete = bool(kw['del'])
-    ch = idx(kw['ch'], 3) if 'ch' in kw else 0
+    ch = idx(kw['ch'], 4) if 'ch' in kw else 0
     with notrace(), reclimit():
         ing = install()
         DB.clear()
@@ -134,6 +134,8 @@ def body_model(cube, **kw):
         elif ch == 2:
             links.append(('Chain', 'prv', [1], 'nxt', [2]))
             links.append(('Chain', 'prv', [2], 'nxt', [2]))
+        elif ch == 3:
+            links.append(('Chain', 'prv', [1, 2], 'nxt', [2, 1]))       # several members in the left field
         m, A = model_from(lcf, {'types': [T, 'O', 'O'], 'ids': [7, 0, -3], 'links': links})
         if delete:
             DB['db'] = {'nodes': ['junk'], 'rels': ['junk'], 'creates': 0, 'commits': 0}
@@ -244,7 +246,7 @@ def body_graph(cube, **kw):
 
 
 def queries(tier):
-    ps = [I('t0', 0, 2)] + [B('b%d' % i) for i in range(5)] + [I('ch', 0, 2), I('pa', 0, 5), I('pr', 0, 5), B('del')]
+    ps = [I('t0', 0, 2)] + [B('b%d' % i) for i in range(5)] + [I('ch', 0, 3), I('pa', 0, 5), I('pr', 0, 5), B('del')]
     pre = ['b0 + b1 + b2 + b3 + b4 <= 3', 'pa == pr', 'ch == 0 or b0 + b1 + b2 + b3 + b4 <= 1'] if tier == 'quick' else ['b0 + b1 + b2 + b3 + b4 <= 4']
     qs = [Query(name='model', body=body_model, params=ps, pre=pre, split=['t0', 'del'] if tier == 'quick' else ['t0', 'del', 'pa'],
                 timeout=600 if tier == 'quick' else 1700,
